@@ -99,6 +99,7 @@ type Frame struct {
 	curLoop []*loopInfo
 	siteOrd map[string]map[ssa.Instruction]int
 	lastCallResult *Val
+	beforeArgs map[string]TV
 }
 
 type retState struct {
